@@ -2345,7 +2345,7 @@ pub fn check_c19(ix: &Ix<'_>, v: &mut Vec<Violation>) {
         }
         let ms = cfg.hs_max_packet_size.unwrap_or(cfg.max_size);
         let got_ms = crate::refcodec::prop_u32(&a.props, 39).unwrap_or(0);
-        if ms != 0 && got_ms != ms {
+        if (ms != 0 || cfg.hs_max_packet_size == Some(0)) && got_ms != ms {
             viol(v, "C19", format!("C19/connack-announces-other-limit/{role}/maximum-packet-size"), format!("Maximum Packet Size in force {ms}, CONNACK announces {got_ms}"), *seq);
         }
         // keep-alive imposed by the server is announced
@@ -2364,11 +2364,12 @@ pub fn check_c19(ix: &Ix<'_>, v: &mut Vec<Violation>) {
             .iter()
             .filter(|s| s.conn == conn && matches!(&s.pkt, Some(Pkt::Publish(p)) if p.topic.starts_with("t/6") || p.topic.starts_with("t/7") || p.topic.starts_with("t/8") || p.topic.starts_with("t/9")))
             .collect();
-        if probes.len() < 2 || probes.iter().any(|s| s.delivered.is_none()) {
+        if probes.is_empty() || probes.iter().any(|s| s.delivered.is_none()) {
             return;
         }
         let handled = |s: &Sent| matches!(&s.pkt, Some(Pkt::Publish(p)) if ix.pub_gates(conn).any(|(_, seen)| seen.topic == p.topic || (p.topic.is_empty())));
-        let (within, beyond) = probes.split_at(probes.len() - 1);
+        let n_within = out.plan.tags.iter().find_map(|t| t.strip_prefix("probes-within:").and_then(|n| n.parse::<usize>().ok())).unwrap_or(probes.len() - 1);
+        let (within, beyond) = probes.split_at(n_within.min(probes.len()));
         for s in within {
             if !handled(s) {
                 let t = if let Some(Pkt::Publish(p)) = &s.pkt { p.topic.clone() } else { String::new() };
@@ -2376,7 +2377,7 @@ pub fn check_c19(ix: &Ix<'_>, v: &mut Vec<Violation>) {
                 return;
             }
         }
-        let b = beyond[0];
+        let Some(b) = beyond.first().copied() else { return };
         if handled(b) {
             let t = if let Some(Pkt::Publish(p)) = &b.pkt { p.topic.clone() } else { String::new() };
             viol(v, "C19", format!("C19/limit-not-enforced/{role}/{name}"), format!("{name} in force {val}: PUBLISH {t:?} exceeds it and reached a handler"), ix.last_seq);
